@@ -102,6 +102,21 @@ def reference_caches(case, jobs, arr):
 
 def load_profile(case, jobs):
     """Load on board after each job activity and the maximum, for static/dynamic single-dimension demand."""
+    if any(j.get('reload') for j in jobs):
+        # piecewise: static deliveries of an interval come on board at its first activity (start depot / reload), static
+        # pickups leave at its end (reload / end depot)
+        r = next(i for i, j in enumerate(jobs) if j.get('reload'))
+        profile, carry, first = [], 0, None
+        for seg in (jobs[:r], jobs[r:]):
+            cur = carry + sum((j.get('demand') or {}).get('sd', 0) for j in seg)
+            if first is None:
+                first = cur
+            for j in seg:
+                d = j.get('demand') or {}
+                cur += d.get('sp', 0) + d.get('dp', 0) - d.get('sd', 0) - d.get('dd', 0)
+                profile.append(cur)
+            carry = cur - sum((j.get('demand') or {}).get('sp', 0) for j in seg)
+        return first, profile, max([first] + profile)
     start = sum((j.get('demand') or {}).get('sd', 0) for j in jobs)
     cur, peak, profile = start, start, []
     for j in jobs:
@@ -295,8 +310,11 @@ def evaluate(case, native):
         start, profile, _ = load_profile(case, jobs)
         full = [start] + profile + ([profile[-1] if profile else start] if case.get('closed', True) else [])
         loads = native['pre']['loads']
+        r = next((i for i, j in enumerate(jobs) if j.get('reload')), None)
+        bounds = [(0, len(full) - 1)] if r is None else [(0, r), (r + 1, len(full) - 1)]
         for i, (c, p, f) in enumerate(loads):
-            exp = (full[i], max([0] + full[:i + 1]), max(full[i:]))
+            lo, hi = next(b for b in bounds if b[0] <= i <= b[1])
+            exp = (full[i], max([0] + full[lo:i + 1]), max(full[i:hi + 1]))
             if (c, p, f) != exp:
                 return True, f'load caches at activity {i}: real (current,max_past,max_future)={(c, p, f)} vs recomputation {exp}'
         return False, 'load caches agree with the recomputed profile'
@@ -313,6 +331,16 @@ def evaluate(case, native):
         if accepted and peak1 > cap:
             return True, f'capacity gate accepted an insertion after which the load peaks at {peak1} > capacity {cap}'
         return False, 'capacity decision is sound on this case'
+    if kind == 'capacity_gate_exact':
+        cap = case.get('capacity')
+        _, _, peak0 = load_profile(case, jobs)
+        _, _, peak1 = load_profile(case, post)
+        accepted = native['evaluate_capacity'] is None
+        if peak0 > cap:
+            return False, 'pre-tour overloaded in the model: not a counterexample'
+        if accepted != (peak1 <= cap):
+            return True, f'capacity gate accepted={accepted} but the (piecewise) load profile after the insertion peaks at {peak1} with capacity {cap}'
+        return False, 'capacity decision is exact on this case'
     if kind == 'reachable':
         dist = lambda a, b: lookup(case.get('dist'), case.get('dist_default'), a, b)
         nodes = [case['l0']] + [j['loc'] for j in jobs] + ([case.get('lend', 0)] if case.get('closed', True) else [])
